@@ -214,6 +214,20 @@ class DriverRules:
         magic = cs.get('FileHeader::Magic_Num')
         lens = self.digest_lengths()
         nsucc = 0
+        self.size_rule(('encrypt',))
+        self.spin_rule(('encrypt',))
+        # R02.h: the length of the output is decided by the bytes written and nothing else (no ftruncate on it)
+        ntr = set()
+        for T in self.Ts:
+            for s, v in self.run('encrypt', T)[1]:
+                for e in accesses(s, kinds=('TRUNC',)):
+                    if (e[3], show(e[2])) not in ntr:
+                        ntr.add((e[3], show(e[2])))
+                        rec.ob('R02.h', 'R02.h@%s::length-set-apart-from-the-writes' % e[4], False, e[3],
+                               'T=%d: the length of %s is set to %s by ftruncate: the file then ends where that value says, not where the last written byte is' % (
+                                   T, 'the output' if e[1] == 'out' else 'a file (%s)' % (e[1],), show(e[2])))
+        rec.ob('R02.h', 'R02.h@%s::length-is-end-of-writes' % fkey(f), not ntr, where,
+               'encryption changes the length of its output only by writing to it (no ftruncate on any analysed path, T in %s)' % (self.Ts,))
         for T in self.Ts:
             I, out = self.run('encrypt', T)
             succ = [(s, v) for s, v in out if v == C(1)]
@@ -426,6 +440,9 @@ class DriverRules:
                                                                'after verification returned 0' if gated else 'WITHOUT a preceding successful verification'))
                         if e[0] == 'W' and e[1] == 'fin':
                             rec.ob('R02.f', 'R02.f@%s::input-written' % e[6], False, e[5], 'write through the input stream')
+                    for e in accesses(s, kinds=('TRUNC',)):
+                        if e[1] != 'out':
+                            rec.ob('R02.f', 'R02.f@%s::input-written' % e[4], False, e[3], 'ftruncate on %s' % ('the input stream' if e[1] == 'fin' else 'a file that is not the output'))
                     if op == 'decrypt' and v == C(1):
                         pipes = [e for e in ev if e[0] == 'PIPE']
                         okp = len(pipes) == 1 and pipes[0][1] == C(hdr) and pipes[0][2] == C(0)
@@ -468,6 +485,9 @@ class DriverRules:
                    '%s: %d block operations / indexed stores with an extent decided from constants and input symbols, all inside the array object they address: %s' % (
                        op, self.bl.per_tag.get(op, 0), 'yes' if not bad else 'NO'))
         rec.count('R11.g decided extents', sum(self.bl.per_tag.get(op, 0) for op in ('decrypt', 'verify')), 4)
+        self.size_rule(('decrypt', 'verify'))
+        self.spin_rule(('decrypt', 'verify'))
+        self.field_agreement()
         # R12.c: both operations do the same things before and inside verification
         for T in self.Ts[:2]:
             sigs = {}
@@ -498,6 +518,101 @@ class DriverRules:
         dep = [T for T in self.Ts if sig[T] != sig[self.Ts[0]]]
         rec.extra['verify_outcome_depends_on_stream_count'] = bool(dep)
         rec.extra['verify_outcome_signature'] = {str(T): sorted(map(str, sig[T])) for T in (self.Ts[0], dep[0] if dep else self.Ts[-1])}
+
+    def spin_rule(self, ops):
+        """R04.f (driver part): no loop of an operation comes back to a state it was in with every decision closed (a read that keeps
+        delivering nothing at the end of the input included)."""
+        rec, D = self.rec, self.D
+        for op in ops:
+            f = D.ops[op]
+            seen = {}
+            for T in self.Ts:
+                I, _ = self.run(op, T)
+                for wh, path in I.diverged:
+                    seen.setdefault(wh, (T, path))
+            for wh, (T, path) in sorted(seen.items()):
+                rec.ob('R04.f', 'R04.f@%s::loop-cannot-spin::%s' % (fkey(f), wh.split(':')[0]), False, wh,
+                       '%s (T=%d): the loop at %s returns to the same state with no decision left open: on that input it never ends' % (op, T, wh), path=list(path))
+            rec.ob('R04.f', 'R04.f@%s::no-loop-spins' % fkey(f), not seen, '%s:%s' % (f['file'], f['line']),
+                   '%s: no loop on the analysed paths can repeat a state with every decision closed (T in %s)' % (op, self.Ts))
+
+    def field_agreement(self):
+        """R08.r: a scalar header field (mode bytes) that the writer stores from a member at a fixed offset is taken by the reading
+        operations from that same offset into that same member, on every path that gets as far as a verdict of verification: a path
+        that keeps the caller's value, or reads the member from another offset, hashes / deciphers with a mode the file does not name."""
+        rec, D = self.rec, self.D
+        def fieldkey(k):
+            return k[1] if k[0] == 'loc' and k[2] and isinstance(k[2][-1], str) else None
+        wmap = {}
+        for T in self.Ts[:2]:
+            for s, v in self.run('encrypt', T)[1]:
+                if v != C(1):
+                    continue
+                for e in accesses(s, kinds=('W',)):
+                    if e[1] == 'out' and e[4][0] == 'loc' and e[4][2] and isinstance(e[4][2][-1], str) and e[2][0] == 'c' and e[3][0] == 'c' and e[3][1] <= 8:
+                        wmap.setdefault(e[4][2][-1], set()).add((e[2][1], e[3][1]))
+        wmap = {k: next(iter(v)) for k, v in wmap.items() if len(v) == 1}
+        nchk = 0
+        for op in ('decrypt', 'verify'):
+            f = D.ops[op]
+            where = '%s:%s' % (f['file'], f['line'])
+            bad, direct = {}, set()
+            paths = []
+            for T in self.Ts[:2]:
+                for s, v in self.run(op, T)[1]:
+                    ev = accesses(s, kinds=('R', 'VERIFYRET'))
+                    iv = next((i for i, e in enumerate(ev) if e[0] == 'VERIFYRET'), None)
+                    got = {}
+                    for e in ev[:iv if iv is not None else len(ev)]:
+                        if e[0] == 'R' and e[1] == 'fin' and e[4][0] == 'loc' and e[4][2] and isinstance(e[4][2][-1], str) and e[4][2][-1] in wmap:
+                            got[e[4][2][-1]] = (e[2], e[3], e[5])
+                            direct.add(e[4][2][-1])
+                    accepted = iv is not None and compare('==', ev[iv][1], C(0), s.sym) is True
+                    paths.append((T, got, accepted, s))
+            for T, got, accepted, s in paths:
+                for fld, (pos, size, wh) in got.items():
+                    nchk += 1
+                    # offsets are compared for the case that every earlier read was complete (a short read ends in a rejection anyway)
+                    if pos[0] == 'l' and all(str(sy).startswith('$got') for sy, _ in pos[2]):
+                        r_ = rng(pos, s.sym)
+                        pos = C(r_[1]) if r_ is not None and all(c_ > 0 for _, c_ in pos[2]) else pos
+                    if not (pos == C(wmap[fld][0]) and size == C(wmap[fld][1])):
+                        bad.setdefault((fld, wh), 'T=%d: member %s is read from input offset %s (%s byte(s)); the writer stores it at offset %d (%d byte(s))' % (
+                            T, fld, show(pos), show(size), wmap[fld][0], wmap[fld][1]))
+                if accepted:
+                    for fld in direct:
+                        if fld not in got:
+                            bad.setdefault((fld, where), 'T=%d: verification accepts on a path on which member %s was NOT read from the file (other paths read it from offset %d): '
+                                           'the value it had before is used' % (T, fld, wmap[fld][0]))
+            for (fld, wh), det in sorted(bad.items()):
+                rec.ob('R08.r', 'R08.r@%s::%s-from-the-writers-offset' % (fkey(f), fld.split('::')[-1]), False, wh, '%s: %s' % (op, det), )
+            rec.ob('R08.r', 'R08.r@%s::header-members-from-the-writers-offsets' % fkey(f), not bad, where,
+                   '%s: members the writer stores at fixed offsets %s; read back directly: %s; every such read is at the writer\'s offset and no accepting path skips it' % (
+                       op, {k.split('::')[-1]: v[0] for k, v in sorted(wmap.items())}, sorted(x.split('::')[-1] for x in direct)))
+        rec.count('R08.r header member reads compared', nchk, 2)
+
+    SIZE_PREFIXES = ('$fsize', '$got', '$strlen', '$strnlen', '$atoi')
+
+    def size_rule(self, ops):
+        """R01.j: no branch of an operation is decided by a byte count (the caller's size, an fread count) after a conversion to a
+        type that cannot hold its whole range: for the sizes beyond that type the branch goes the wrong way."""
+        rec, D = self.rec, self.D
+        for op in ops:
+            f = D.ops[op]
+            seen, nconv = {}, 0
+            for T in self.Ts:
+                I, _ = self.run(op, T)
+                nconv += len(I.truncs)
+                for d in I.trunc_decisions:
+                    if d['syms'] and all(x.startswith(self.SIZE_PREFIXES) for x in d['syms']):
+                        seen.setdefault((d['where'], d['decided_at'], d['decided_in']), (T, d))
+            for (wh, at, fn), (T, d) in sorted(seen.items()):
+                rec.ob('R01.j', 'R01.j@%s::branch-on-wrapped-size' % fn, False, at,
+                       '%s (T=%d): %s with range [%d, %d] is converted to a %d-bit %s type at %s and the converted value decides the branch at %s' % (
+                           op, T, d['expr'], d['range'][0], d['range'][1], d['bits'], 'signed' if d['signed'] else 'unsigned', wh, at))
+            rec.ob('R01.j', 'R01.j@%s::sizes-keep-their-range' % fkey(f), not seen, '%s:%s' % (f['file'], f['line']),
+                   '%s: no branch is decided by a byte count that was converted to a type too narrow for its range (%d range-losing conversions seen, T in %s)' % (
+                       op, nconv, self.Ts))
 
     def mac_key_rule(self, s, T, f):
         """R06.c: the 16 bytes the MAC is keyed with are the 16 bytes of the operation's key."""
